@@ -41,6 +41,37 @@ def special_name_programs():
     return out
 
 
+def class_graph_programs(rng, n):
+    """random inheritance graphs, cycles included: classes with or without a generic parameter, parents referred to
+    plainly, with the placeholder, or instantiated; followed by a use of each class"""
+    out = []
+    for _ in range(n):
+        k = rng.randint(1, 5)
+        names = ["G%d" % i for i in range(k)]
+        generic = {c: rng.random() < 0.5 for c in names}
+        lines = []
+        for c in names:
+            head = "class %s%s" % (c, "[T]" if generic[c] else "")
+            if rng.random() < 0.4:
+                head += "(def a: Int)"
+            ps = []
+            for p in rng.sample(names, rng.randint(0, min(2, k))):
+                if generic[p]:
+                    arg = rng.choice(["Int", "Str", "T" if generic[c] else "Int", "%s[Int]" % p if rng.random() < 0.3 else "Bool"])
+                    ps.append("%s[%s]" % (p, arg))
+                else:
+                    ps.append(p)
+            if ps:
+                head += ": " + ", ".join(ps)
+            lines.append(head)
+            if rng.random() < 0.6:
+                lines.append("    def m%s(self) -> Int => 1" % c)
+        for c in rng.sample(names, rng.randint(0, k)):
+            lines.append("def o%s: %s%s := undefined" % (c, c, "[Int]" if generic[c] else "") if rng.random() < 0.5 else "def f%s(x: %s%s) -> Int => 1" % (c, c, "[Str]" if generic[c] else ""))
+        out.append("\n".join(lines) + "\n")
+    return out
+
+
 def deep_programs():
     out = []
     for depth in (5, 20, 40):
@@ -70,6 +101,7 @@ def run(chk):
         return
     rng = chk.rng
     cases = [("adversarial", t) for t in ADVERSARIAL] + [("deep", t) for t in deep_programs()]
+    cases += [("class-graph", t) for t in class_graph_programs(rng, 1500 if thorough else 300)]
     cases += [("special-name", t) for t in special_name_programs()]
     cases += [("corpus", f["input"]) for f in chk.findings if f.get("input")]
     n = 6000 if thorough else 1000
